@@ -9,11 +9,16 @@ StorableTab == [f \in AllForms |->
     CASE f \in {"none", "ma2", "ma5", "exp_fut3", "ma2_extra", "MaxAgeCaps"} -> "yes"
       [] f \in {"ma2_exp_past", "public"} -> "either"
       [] OTHER -> "no"]
+\* lifetime in ticks the origin's headers give: 0 = none given (configured default applies),
+\* -1 = already expired (past / unparseable Expires, max-age=0)
 LifeTab == [f \in AllForms |->
     CASE f \in {"ma2", "ma2_exp_past", "ma2_extra", "MaxAgeCaps"} -> 2
-      [] f = "ma5" -> 5
+      [] f \in {"ma5", "private_ma", "two_lines_nostore", "nostore_ma"} -> 5
       [] f = "exp_fut3" -> 3
+      [] f \in {"exp_past", "exp_bad", "ma0"} -> -1
       [] OTHER -> 0]
+FlightForms == {"ma2", "nostore", "none", "ma5"}
+RevalForms == {"ma2", "none", "exp_fut3", "ma2_extra", "MaxAgeCaps"}
 SmallForms == {"none", "ma2", "nostore", "exp_fut3"}
 SmallStorable == [f \in SmallForms |-> StorableTab[f]]
 SmallLife == [f \in SmallForms |-> LifeTab[f]]
